@@ -76,8 +76,7 @@ theorem manager_order_current (m : Mgr) (hd : m.dead = false) (op : Op) (hop : o
 
 /-- One manager update after any well-formed history: it does not throw; the systems updated are, in
 sequence, the active ones of an admissible order; every registered system receives exactly one `onUpdate`
-if it is active after the update (late-comers are started first) and none otherwise; nothing but
-`onStart` / `onUpdate` is called. -/
+if it is active after the update (late-comers are started first) and none otherwise. -/
 theorem update_each_once (ops : List Op) (hwf : wfFrom Mgr.empty ops = true) :
     let m := (run Mgr.empty ops).1
     m.dead = false → m.wasInit = true →
